@@ -667,7 +667,6 @@ theorem pstateBeq_sound {a b : PState} (h : pstateBeq a b = true) : a = b := by
   cases a; cases b
   simp only [pstateBeq, Bool.and_eq_true, beq_iff_eq] at h
   obtain ⟨⟨⟨⟨⟨h1, h2⟩, h3⟩, h4⟩, h5⟩, h6⟩ := h
-  simp only at h1 h2 h3 h4 h5 h6
   subst h1 h2 h3 h4 h5 h6
   rfl
 
